@@ -955,6 +955,42 @@ def check_take_form(ctx, rep, fs, fa):
             rep.ob('C11.R2', fs, 'deserialises-with-limit', contains(a[0], lambda x: is_call(x, 'with_limit')), '')
 
 
+def field_unread_by_framework(ctx, adt, field):
+    """no function reachable from Framework::trigger_events reads `adt.field`, and the field is private"""
+    prog, an = ctx.prog, ctx.an
+    a = prog.adts[adt]
+    fl = [f for v in a['variants'] for f in v['fields'] if f['name'] == field]
+    if not fl or fl[0].get('pub'):
+        return False
+    key = ('unread', adt, field)
+    if key in ctx.cache if hasattr(ctx, 'cache') else False:
+        return ctx.cache[key]
+    from .effects import Closure
+    te = prog.fn(FW, 'Framework', 'trigger_events')
+    cl = Closure(prog, [te] + prog.closures_of(te))
+    res = True
+    for k, g in cl.nodes.items():
+        if g.crate != FW or not g.has_body:
+            continue
+        ga = an.get(g)
+        for b in ga.cfg.reach:
+            bb = ga.blocks[b]
+            for kk, st in enumerate(bb['s']):
+                if 'p' not in st or st['rv']['k'] == 'setdiscr':
+                    continue
+                e = ga.rvalue(st['rv'], (b, kk))
+                pe = ga.place_expr(st['p'], (b, kk))
+                if contains(e, lambda y: isinstance(y, tuple) and y and y[0] == 'fld' and y[3] == field and y[2] == adt) or \
+                        contains(pe, lambda y: isinstance(y, tuple) and y and y[0] == 'fld' and y[3] == field and y[2] == adt):
+                    res = False
+            t = bb['t']
+            if t['k'] == 'call':
+                for x in t['a']:
+                    if contains(ga.operand(x, (b, len(bb['s']))), lambda y: isinstance(y, tuple) and y and y[0] == 'fld' and y[3] == field and y[2] == adt):
+                        res = False
+    return res
+
+
 def check_C11(ctx, rep):
     prog, an = ctx.prog, ctx.an
     rep.rule('C11.R1', 'writer/reader agreement: serialize and from_str build the same bincode options (same resolved calls, same limit constant), '
@@ -1119,9 +1155,14 @@ def check_C11(ctx, rep):
                         vals_ok = vals_ok and k is not None and contains(ar[2], lambda y: isinstance(y, tuple) and y and y[0] == 'fld' and y[3] == k)
                 elif last in ('serialize_newtype_variant', 'serialize_newtype_struct'):
                     total += 1
-            okf = sf is not None and total == len(fields) and sorted(k or '?' for k in keys) == named and vals_ok
+            # a private field that is not written is tolerated when nothing reachable from Framework::trigger_events reads it (a memo
+            # of validation, say): such a field cannot make the parsed machine drive a framework differently
+            missing = sorted(set(named) - set(k for k in keys if k))
+            cache = [m for m in missing if field_unread_by_framework(ctx, p, m)]
+            okf = sf is not None and total == len(fields) - len(cache) and sorted(k or '?' for k in keys) == [n_ for n_ in named if n_ not in cache] and vals_ok
             rep.ob('C11.R4', p.split('::')[-1], 'serialize-writes-every-field-under-its-name', okf,
-                   'declared fields %d, written %d, keys %s' % (len(fields), total, sorted(set(named) ^ set(k or '?' for k in keys))))
+                   'declared fields %d, written %d, not written %s%s' % (len(fields), total, missing, (' (of which never read while driving a framework: %s)' % cache) if cache else ''))
+            fields = [(vn, fl) for (vn, fl) in fields if fl not in cache]
         if len(de) == 1 and de[0]['derived']:
             pre = de[0]['items'][0]['key']
             nread = 0
